@@ -47,12 +47,15 @@ inline void sleep_ms(int ms) { ::usleep(ms * 1000); }
 
 // A loop that lives on its own thread (NOT EventLoopThread, whose destructor is finding F-4): the loop
 // thread constructs the EventLoop, runs `init` on it, publishes the pointer and loops until quit().
+// The loop thread destroys its EventLoop only after the host's quit() call has RETURNED (quitDone_): quit() stores the
+// flag and then still calls wakeup() on the object - the F-4 window, which is the subject of scenario
+// quit_while_loop_busy and of nothing else.
 class LoopHost
 {
  public:
   typedef std::function<void(muduo::net::EventLoop*)> Init;
   explicit LoopHost(const Init& init = Init(), const Init& fini = Init())
-    : init_(init), fini_(fini), loop_(NULL), latch_(1),
+    : init_(init), fini_(fini), loop_(NULL), latch_(1), quitDone_(1),
       thread_(std::bind(&LoopHost::run, this), "c08loop")
   {
     thread_.start();
@@ -61,6 +64,7 @@ class LoopHost
   ~LoopHost()
   {
     loop_->quit();
+    quitDone_.countDown();
     thread_.join();
   }
   muduo::net::EventLoop* loop() { return loop_; }
@@ -74,10 +78,12 @@ class LoopHost
     latch_.countDown();
     loop.loop();
     if (fini_) fini_(&loop);
+    quitDone_.wait();
   }
   Init init_, fini_;
   muduo::net::EventLoop* loop_;
   muduo::CountDownLatch latch_;
+  muduo::CountDownLatch quitDone_;
   muduo::Thread thread_;
 };
 
